@@ -369,15 +369,24 @@ def rand_grid(rng, lo=-8, hi=24):
     return {"t0": fs(t0), "dt": fs(dt), "n": n}
 
 
-def rand_signal(rng, prev):
-    """integer-valued signal on a dyadic grid; placed relative to earlier signals so that
-    overlapping / nested / disjoint / identical windows all occur"""
-    mode = rng.choice(["free", "overlap", "nested", "same", "disjoint", "touch"]) if prev else "free"
+def rand_signal(rng, prev, totals=(), thr=None):
+    """integer/dyadic-valued signal on a dyadic grid; placed relative to earlier signals so that
+    overlapping / nested / disjoint / identical windows all occur, and shaped relative to them so that
+    triggers APPEAR (doubling, pulses just above the threshold) and DISAPPEAR (opposite-sign copies that
+    cancel one earlier signal or the whole sum, pulses that pull the sum just below the threshold)"""
+    mode = "free"
+    if prev:
+        if rng.random() < 0.35:
+            mode = rng.choice(["cancel", "cancel", "cancel_total", "cancel_total", "double", "to_threshold"])
+        else:
+            mode = rng.choice(["free", "overlap", "nested", "same", "disjoint", "touch"])
     g = rand_grid(rng)
+    vals = None
     if mode != "free":
-        p = rng.choice(prev)
+        i = rng.randrange(len(prev)) if rng.random() < 0.5 else len(prev) - 1
+        p = prev[i]
         pt = grid_times(p)
-        if mode == "same":
+        if mode in ("same", "cancel", "cancel_total", "double", "to_threshold"):
             g = {"t0": p["t0"], "dt": p["dt"], "n": p["n"]}
         elif mode == "overlap":
             g["t0"] = fs(pt[rng.randrange(len(pt))] + Fr(rng.randint(-2, 2), 4))
@@ -389,10 +398,28 @@ def rand_signal(rng, prev):
             g["t0"] = fs(pt[-1] + rng.randint(1, 30))
         elif mode == "touch":
             g["t0"] = fs(pt[-1])
-    vals = [rng.choice([0, 0, 1, -1, 2, 3, -4, 5, 7, -9, rng.randint(-9, 9)]) for _ in range(g["n"])]
-    if rng.random() < 0.1:
-        vals = [0] * g["n"]
-    g["vals"] = ["%d/1" % v for v in vals]
+        if mode in ("cancel", "double") and i < len(totals):
+            sign = -1 if mode == "cancel" else 1
+            vals = [sign * v for v in totals[i][1]]
+        elif mode in ("cancel_total", "to_threshold") and totals:
+            vals = [-sum((interp_fr(t, ts, vs) for ts, vs in totals), Fr(0)) for t in pt]
+            if mode == "to_threshold" and thr is not None:
+                # leave the sum with a single peak exactly at / just below / just above the threshold
+                j = rng.randrange(len(vals))
+                vals[j] += rng.choice([1, -1]) * (thr + rng.choice([Fr(0), Fr(0), Fr(-1, 2), Fr(1, 2), Fr(-1), Fr(1)]))
+        if vals is not None and rng.random() < 0.35:
+            j = rng.randrange(len(vals))
+            vals[j] += rng.choice([1, -1, Fr(1, 2), 2, -3])
+    if vals is None:
+        vals = [rng.choice([0, 0, 1, -1, 2, 3, -4, 5, 7, -9, rng.randint(-9, 9)]) for _ in range(g["n"])]
+        if thr is not None and rng.random() < 0.3:
+            # a pulse around the threshold
+            j = rng.randrange(len(vals))
+            vals = [0] * len(vals)
+            vals[j] = rng.choice([1, -1]) * (thr + rng.choice([Fr(0), Fr(1, 2), Fr(-1, 2), Fr(1), Fr(-1)]))
+        if rng.random() < 0.1:
+            vals = [0] * g["n"]
+    g["vals"] = [fs(Fr(v)) for v in vals]
     return g
 
 
@@ -415,26 +442,43 @@ def rand_history(rng, cfg, max_ops=40, noise=False):
     if noise:
         qops = qops + ["noise", "noise", "full"]
     p_recv = rng.choice([0.25, 0.4, 0.55])
-    for _ in range(n_ops):
+    thr = Fr(cfg["thr"]) if cfg.get("thr") is not None else None
+    totals = []          # what the antenna stores for each receive (exact classes)
+    first_q = [q for q in ("hit", "hitmc", "wf", "all", "during", "full") if q in qops]
+    force_query = False
+
+    def query(q):
+        if q in ("full", "during", "noise"):
+            if prev and q != "noise" and rng.random() < 0.5:
+                pq = rng.choice(prev)
+                return [q, {"t0": pq["t0"], "dt": pq["dt"], "n": pq["n"]}]
+            return [q, rand_query_grid(rng, prev)]
+        return [q]
+    while len(hist) < n_ops:
         r = rng.random()
-        if r < p_recv and len(prev) < 6:
-            s = rand_signal(rng, prev)
+        if force_query:
+            # every kind of query gets to be the FIRST one after a receive
+            force_query = False
+            hist.append(query(rng.choice(first_q)))
+        elif r < p_recv and len(prev) < 6:
+            s = rand_signal(rng, prev, totals, thr)
+            ts, vs = sig_of(s)
             if rng.random() < 0.12:
                 s2 = dict(s)
                 s2["vals"] = ["%d/1" % rng.randint(-5, 5) for _ in range(s["n"])]
                 hist.append(["recv2", s, s2])
+                vs = [a + b for a, b in zip(vs, sig_of(s2)[1])]
             else:
                 hist.append(["recv", s])
             prev.append(s)
+            totals.append((ts, vs))
+            force_query = rng.random() < 0.6
         elif p_recv <= r < p_recv + 0.06:
             hist.append(["clear", rng.random() < 0.4])
             prev = []
+            totals = []
         else:
-            q = rng.choice(qops)
-            if q in ("full", "during", "noise"):
-                hist.append([q, rand_query_grid(rng, prev)])
-            else:
-                hist.append([q])
+            hist.append(query(rng.choice(qops)))
     return hist
 
 
